@@ -43,8 +43,8 @@ def run(ctx):
         if kind == "int" and x.denominator == 1:
             return Q(int(x), u)
         if kind == "decimal":
-            return Q(Decimal(repr(float(x))), u)
-        return Q(float(x), u)
+            return Q(Decimal(repr(core.sf(x))), u)
+        return Q(core.sf(x), u)
 
     def si(q):
         return orc.si_value(q.magnitude, q.unit)[:2]
@@ -60,8 +60,18 @@ def run(ctx):
             return 1
         return 0
 
-    def ok_mag(q):
-        return kit.finite(q.magnitude) and (q.magnitude == 0 or 1e-40 < abs(q.magnitude) < 1e40)
+    import math
+
+    def ok_mag(q, zero_ok=False):
+        # keep every partial product of a conversion well inside the float range: under/overflow
+        # (a magnitude collapsing to 0.0 or inf) is not a comparison question
+        if not kit.finite(q.magnitude):
+            return False
+        if q.magnitude == 0:
+            return zero_ok
+        if not (1e-40 < abs(q.magnitude) < 1e40):
+            return False
+        return orc.dynamic_range(q.unit) + abs(math.log10(abs(float(q.magnitude)))) < 150
 
     def truth(a, b):
         """all six operators, both orders; None when an ordering raises TypeError (no route)"""
@@ -110,7 +120,7 @@ def run(ctx):
         if not orc.knows(ua):
             continue
         a = Q(pools.magnitude(rng, allow_zero=True), ua)
-        if not ok_mag(a):
+        if not ok_mag(a, zero_ok=True):
             continue
         alo, ahi = si(a)
         base = (alo + ahi) / 2
@@ -120,7 +130,7 @@ def run(ctx):
             b = express(base * r if base else Fraction(r), fb, kind=rng.choice(["float", "float", "int", "decimal"]))
         except Exception:
             continue
-        if not ok_mag(b):
+        if not ok_mag(b, zero_ok=(base == 0 or r == 0)):
             ctx.count("skipped_magnitude_out_of_range")
             continue
         case = {"a": [model.enc_mag(a.magnitude), pools.factors_term(fa)], "b": [model.enc_mag(b.magnitude), pools.factors_term(fb)]}
@@ -190,13 +200,13 @@ def run(ctx):
                         break
 
         # measurements and approximately(): symmetry of == and !=
-        am_, bm_ = abs(float(a.magnitude)), abs(float(b.magnitude))
+        am_, bm_ = abs(core.sf(a.magnitude)), abs(core.sf(b.magnitude))
         sig_a = rng.choice([0, 0, am_ * 0.01, am_ * 0.5, am_ * 3, 1])
         sig_b = rng.choice([0, 0, bm_ * 0.001, bm_ * 0.2, bm_ * 5, 1])
         try:
             ma, mb = Measurement(a, sig_a), Measurement(b, sig_b)
             objs = [("Q-M", a, mb), ("M-M", ma, mb), ("Q-M", b, ma)]
-            if float(a.magnitude) != 0:
+            if core.sf(a.magnitude) != 0:
                 objs.append(("Q-approx", b, approximately(a, rng.choice([1e-7, 1e-3, 0.5]))))
                 objs.append(("M-approx", mb, approximately(a, rng.choice([1e-7, 0.3]))))
         except Exception as e:
